@@ -62,6 +62,12 @@ def rule_sort_axis(ctx):
         for v in T.value_alts(p.value):
             if v[0] == 'call' and T.dotted(v[1]) == 'sorted' and T.kw(v, 'reverse') in (None, T.CONST_FALSE) and T.kw(v, 'key') is not None:
                 okk = True if okk is not None else None
+            elif any(x[0] == 'call' and T.dotted(x[1]) == 'sorted' and T.kw(x, 'reverse') in (None, T.CONST_FALSE) for x in T.subterms(v)) and \
+                    not any(x[0] == 'call' and (T.dotted(x[1]) or '').startswith('np.') for x in T.subterms(v)):
+                # Python's sorted() is what orders, but of something else than the positions (label / position pairs, ...), mapped back afterwards: whether the
+                # mapping gives each label its own position again is a value-level question (repeated labels) this clause does not answer
+                ctx.undecide('R1', 'argsort helper sorts with sorted() in a form the rule does not know: %s' % T.show(v)[:100])
+                okk = None
             else:
                 # keys gathered into an ndarray and sorted by NumPy: sequence-valued keys (tuples) become a 2-D array, str / mixed keys change their ordering
                 ctx.violated('R1', fa, 'argsort helper not through sorted()', 'the helper behind sort_axis(key=) must order the positions with Python\'s sorted(range(len(seq)), key=...): '
